@@ -28,6 +28,13 @@ pub use responder::CaseResponder;
 pub use resumption::{ResumableSession, ResumableSessions, MAX_RESUMPTION_RECORDS};
 
 pub(crate) mod casep;
+
+/// Verification hooks (off by default): the CASE protocol helper, so that a monitor can feed
+/// certificate chains to the very chain validation CASE uses.
+#[cfg(feature = "verif")]
+pub mod verif {
+    pub use super::casep::CaseP;
+}
 mod initiator;
 mod responder;
 #[cfg(feature = "case-resumption")]
